@@ -214,8 +214,36 @@ def run_all(modname, tier, jobs):
             r["task"], r["kind"], r["counted"], r["wall"] = t.name, t.kind, t.counted, round(time.time() - t0, 2)
             own[i] = r
     serial = jobs == 1 or bool(os.environ.get("VERIF_SERIAL"))
-    pool = None if serial else mp.get_context("fork").Pool(jobs)
-    mapper = (lambda f, xs: [f(x) for x in xs]) if serial else (lambda f, xs: pool.map(f, xs, chunksize=1))
+    pool = None
+
+    def mapper(f, xs):
+        """parallel map that survives a worker being killed (e.g. by the OOM killer): the units of a
+        broken pool are retried one by one in fresh single-worker pools; a unit that kills its worker
+        again is reported as a crash"""
+        if serial:
+            return [f(x) for x in xs]
+        import concurrent.futures as cf
+        ctxm = mp.get_context("fork")
+        out = [None] * len(xs)
+        try:
+            with cf.ProcessPoolExecutor(max_workers=jobs, mp_context=ctxm) as ex:
+                futs = {ex.submit(f, x): i for i, x in enumerate(xs)}
+                for fu in cf.as_completed(futs):
+                    out[futs[fu]] = fu.result()
+            return out
+        except cf.process.BrokenProcessPool:
+            pass
+        for i, x in enumerate(xs):
+            if out[i] is not None:
+                continue
+            try:
+                with cf.ProcessPoolExecutor(max_workers=1, mp_context=ctxm) as ex:
+                    out[i] = ex.submit(f, x).result()
+            except cf.process.BrokenProcessPool:
+                out[i] = ("crash", "worker process died (killed?)") if f is _plan else \
+                    {"crash": "worker process died while running this unit (killed, e.g. out of memory)", "_wall": 0}
+        return out
+
     try:
         plans = mapper(_plan, [(modname, i, tier) for i in range(len(tasks))])
         units = []
@@ -226,9 +254,7 @@ def run_all(modname, tier, jobs):
                 units += [(modname, i, u, tier) for u in pl]
         parts = mapper(_unit, units)
     finally:
-        if pool is not None:
-            pool.close()
-            pool.join()
+        pass
     results = []
     for i, t in enumerate(tasks):
         if i in own:
